@@ -164,6 +164,24 @@ def gen_links(tier, seed, rels):
             sh = rng.choice([-60, -100, -150, -30, 75])
             ndA = -3000
             links.append({"rel": "shift", "shift": sh, "base": with_y(c, encode(vals, miss, ndA), ndA), "other": with_y(c, encode([v + sh for v in vals], miss, ndA + sh), ndA + sh)})
+    if "shift" in rels:
+        # level-sensitive inputs for the GCV variants (robust weights on and off): seasonal series with gaps, shifted by
+        # thousands so that the whole series changes sign (|values| + |c| <= 10000); zero-weight cells must not start to
+        # matter when the level of the data moves relative to the blanked value 0
+        for i in range(40 if quick else 400):
+            variant = "wcvp" if i % 2 else "wcv"
+            n = rng.choice([24, 36, 48, 71])
+            a_, ph = rng.randint(300, 900), rng.random() * 6
+            lvl = rng.choice([3000, 2500, -2500, 1500])
+            vals = [int(lvl + a_ * np.sin(ph + t * 0.4) + rng.gauss(0, a_ / 5)) for t in range(n)]
+            miss = {j for j in range(n) if rng.random() < 0.3}
+            c = params(rng, variant, n, quick)
+            c["robust"] = i % 4 != 3
+            room = 10000 - max(abs(v) for v in vals)
+            sh = -rng.choice([lvl * 2, lvl, lvl + 1500]) if abs(lvl) * 2 <= room else -lvl
+            sh = max(-room, min(room, sh))
+            ndA = -9999 if min(vals) + min(sh, 0) > -9000 else 32000
+            links.append({"rel": "shift", "shift": sh, "base": with_y(c, encode(vals, miss, ndA), ndA), "other": with_y(c, encode([v + sh for v in vals], miss, ndA + sh if abs(ndA + sh) < 32700 else ndA), ndA + sh if abs(ndA + sh) < 32700 else ndA)})
     if "reverse" in rels:
         # selection-sensitive inputs: fine grid, short series, near-tie V-curves; equal outputs are accepted
         # without any exact solve, so many of these are cheap
